@@ -100,8 +100,12 @@ def fmt2 (r : Option (Env × Outcome (Res × List Byte) × Nat)) : String :=
 def optNat (s : String) : Option (Option Nat) :=
   if s = "-" then some none else s.toNat?.map some
 
+/-- A case line may end in ` #…`: a note for the reader (the operations made before this one on the same
+    operation object), not part of the case - operations do not depend on the object's past. -/
+def stripNote (line : String) : String := (line.splitOn " #").headD line
+
 def step (line : String) : String :=
-  match words line with
+  match words (stripNote line) with
   | "R" :: op :: asy :: addr :: size :: reset :: xor :: ret :: rest =>
     match addr.toInt?, size.toNat?, parseHexBytes reset, parseHexBytes xor, ret.toNat?, parseScriptPend rest with
     | some addr, some size, some reset, some xor, some ret, some (script, pend) =>
